@@ -13,7 +13,8 @@ from framework import graph_replay
 # internal specification actions are part of the public call that contains them
 MERGE = r"(BodyResume|BodyStep|FinalSuspend|YieldSuspend|UnblockSync|UnblockFuture|ResumeAwt|SyncReturn)$"
 KEEP = ("alive", "bscript", "bst", "cscript", "got", "it", "loc", "obs", "par")
-SYNC_STEPS = ("yield", "yt", "yv", "ym", "ynull", "throw", "return")
+THROWS = ("throw", "thr_nomore", "thr_cancel", "thr_notready", "thr_nolonger", "thr_nonstd")
+SYNC_STEPS = ("yield", "yt", "yv", "ym", "ynull", "return") + THROWS
 KEY_POSTINC = "iterator_postincrement_moves_item"     # known finding, fixed in /repo 97856c3
 
 
@@ -41,6 +42,8 @@ def proj(st):
     body_var = st["bst"] in ("yield", "await")
     d["var"] = {"id": pay["var"] if body_var else 0, "m": pay["moved"] if body_var else False}
     d["val"] = st["pr"]["ret"] if (st["alive"] and st["bst"] == "yield") else 0
+    # the consumer's kept next() object: its cached flag _state ("stale": still true)
+    d["nx"] = "item" if st["nx"] == "stale" else st["nx"]
     return d
 
 
@@ -131,6 +134,9 @@ def replay(*a, **kw):
 
 
 PAYK = '{"yt", "yv", "ym", "return"}'
+THROWK = ", ".join('"%s"' % k for k in THROWS)
+S_KEPT = '{"sync", "coawait", "future", "kbool", "kco"}'
+S_ALL = '{"sync", "coawait", "future", "begin", "inc", "postinc", "kbool", "kco"}'
 PAYK_ASYNC = '{"yt", "yv", "ym", "apend", "return"}'
 PAYK_ARG = '{"ynull", "yt", "yv", "ym", "return"}'
 
@@ -212,15 +218,40 @@ def run(ctx):
           "MaxAfterEnd": 1},
          {"BodyKinds": '{"ynull", "yield", "apend", "return"}', "MaxBody": 4, "MaxAcc": 3, "MaxObj": 2, "EarlyDestroy": "FALSE",
           "MaxAfterEnd": 1}),
+        # what leaves the body: an application exception, each of the library's own exception types (the body stepped a
+        # finished source once more, read a dropped future, ...), a type outside std::exception -- at every position, read
+        # through every access style; ExceptionAtPosition: the access at that position reports THAT exception object
+        ("Generator_noarg.cfg", "exckinds", False, ["native", "coro", "cb"],
+         {"BodyKinds": '{"yield", %s, "return"}' % THROWK, "Styles": S_ALL, "MaxBody": 3, "MaxAcc": 3, "MaxAfterEnd": 1,
+          "EarlyDestroy": "FALSE"},
+         {"BodyKinds": '{"yield", "apend", %s, "return"}' % THROWK, "Styles": S_ALL, "MaxBody": 4, "MaxAcc": 4, "MaxAfterEnd": 1,
+          "EarlyDestroy": "FALSE"}),
+        ("Generator_arg.cfg", "exckinds_arg", True, ["native", "coro", "cb"],
+         {"BodyKinds": '{"yield", %s, "return"}' % THROWK, "MaxBody": 2, "MaxAcc": 3, "MaxAfterEnd": 1, "EarlyDestroy": "FALSE"},
+         {"BodyKinds": '{"yield", "ynull", "apend", %s, "return"}' % THROWK, "MaxBody": 3, "MaxAcc": 4, "MaxAfterEnd": 1,
+          "EarlyDestroy": "FALSE"}),
+        # ONE next() object kept by the consumer and reused: co_await of it again and again, conversion to bool then co_await,
+        # co_await then conversion (a re-read), mixed with the styles that make a fresh object per access
+        ("Generator_noarg.cfg", "kept", False, ["native", "coro", "cb"],
+         {"BodyKinds": '{"yield", "apend", "throw", "return"}', "Styles": '{"sync", "future", "kbool", "kco"}', "MaxBody": 4,
+          "MaxAcc": 4, "MaxAfterEnd": 1, "EarlyDestroy": "FALSE"},      # (with a fresh co_await next() in between: exckinds)
+         {"BodyKinds": '{"yield", "apend", "throw", "thr_nomore", "return"}', "Styles": S_ALL, "MaxBody": 4, "MaxAcc": 5,
+          "MaxAfterEnd": 1, "EarlyDestroy": "FALSE"}),
         ("Generator_thr.cfg", "thr", False, ["thr_late", "thr_early"], {},
          {"MaxAcc": 4, "MaxAfterEnd": 2}),
+        # the kept next() object on a body that suspends: its conversion really blocks until another thread completes the
+        # awaited operation; what leaves the body then leaves it on that other thread
+        ("Generator_thr.cfg", "thr_kept", False, ["thr_late", "thr_early"], None,
+         {"MaxAcc": 4, "MaxAfterEnd": 1, "Styles": S_KEPT,
+          "BodyKinds": '{"yield", "apend", "throw", "thr_nomore", "thr_nonstd", "return"}'}),
         ("Generator_thr.cfg", "thrarg", True, ["thr_late", "thr_early"],
          {"WithArg": "TRUE", "Styles": S3, "BodyKinds": '{"yield", "ynull", "apend", "throw", "return"}'},
          {"WithArg": "TRUE", "Styles": S3, "BodyKinds": '{"yield", "ynull", "apend", "throw", "return"}', "MaxAcc": 4}),
     ]
+    only = [t for t in os.environ.get("VERIF_C13_JOBS", "").split(",") if t]     # development aid: run these jobs only
     for (cfg, tag, witharg, modes, cq, ct) in jobs:
         consts = cq if q else ct
-        if consts is None:
+        if consts is None or (only and tag not in only):
             continue
         consts = {k: str(v) for k, v in consts.items()}
         pay = tag.startswith("payload")
@@ -231,9 +262,20 @@ def run(ctx):
 
         def hdr(k, st0, witharg=witharg, modes=modes):
             return {"witharg": witharg, "modes": modes}
-        replay(ctx, "Generator", "Generator", cfg, tag, rp, pj, header_fn=hdr, merge_re=MERGE,
-               must_take=must, constants=consts or None, max_paths=cap, replay_timeout=3000, tlc_kw={"workers": 4},
-               key_fn=key_fn)
+        res, g = replay(ctx, "Generator", "Generator", cfg, tag, rp, pj, header_fn=hdr, merge_re=MERGE,
+                        must_take=must, constants=consts or None, max_paths=cap, replay_timeout=3000, tlc_kw={"workers": 4},
+                        key_fn=key_fn)
+        # vacuity guard for the forms a job exists for: every throw kind / both uses of the kept object were generated
+        want = []
+        if tag.startswith("exckinds"):
+            want = ['BodyStep("%s")' % k for k in THROWS]
+        elif tag == "kept":
+            want = ['NextSync("kbool")', 'NextAsync("kco")']
+        if g is not None and want:
+            have = set(l for es in g.edges.values() for (l, d) in es)
+            missing = [l for l in want if l not in have]
+            if missing:
+                raise vlib.MachineryError("vacuous model %s: steps never generated: %s" % (tag, missing))
     # self-test of the specification: with it++ modelled as it was before 97856c3 (moving the item out) TLC must report the
     # payload invariant violated -- otherwise "the body's variable stays intact" would be vacuous
     path = os.path.join(vlib.BUILD, "%s_postinc_selftest.cfg" % ctx.prop)
@@ -244,7 +286,7 @@ def run(ctx):
     if not (res.violation and "PayloadIntact" in res.violation):
         raise vlib.MachineryError("specification self-test failed: PostIncMoves=TRUE does not violate PayloadIntact (%s)"
                                   % (res.violation or res.error or "no violation"))
-    if not q:
+    if not q and not only:
         # larger bounds on the specification alone (all invariants, no replay)
         for (cfg, tag) in (("Generator_noarg.cfg", "noarg_big"), ("Generator_arg.cfg", "arg_big")):
             path = os.path.join(vlib.BUILD, "%s_%s.cfg" % (ctx.prop, tag))
